@@ -174,6 +174,13 @@ func (g *Gen) StrE(d int) GExpr {
 		if g.NoFilters {
 			return g.StrE(0)
 		}
+		switch r.Intn(4) {
+		case 0:
+			// filters the pipeline model takes over from the filter model (TwigModel.Filters): rune-wise on every byte string
+			return EFilter{g.StrE(d - 1), pick(r, []string{"capitalize", "title", "reverse", "first", "last"}), nil}
+		case 1:
+			return EFilter{g.StrE(d - 1), "slice", []GExpr{ELit{r.Intn(5) - 2}, ELit{r.Intn(4)}}}
+		}
 		return EFilter{g.StrE(d - 1), pick(r, []string{"upper", "lower", "trim", "escape", "e", "raw"}), nil}
 	case 3:
 		return EFilter{g.ListE(d - 1), "join", []GExpr{ELit{pick(r, []string{",", "-", ""})}}}
@@ -213,7 +220,13 @@ func (g *Gen) ListE(d int) GExpr {
 			return EAttr{EVar{"user"}, "tags"}
 		}
 	}
-	switch r.Intn(7) {
+	switch r.Intn(10) {
+	case 7:
+		return EFilter{g.ListE(d - 1), "slice", []GExpr{ELit{r.Intn(7) - 3}, pick(r, []GExpr{ELit{r.Intn(4)}, ELit{-1}, ELit{nil}})}}
+	case 8:
+		return EFilter{g.ListE(d - 1), "sort", nil}
+	case 9:
+		return EFilter{g.StrE(d - 1), "split", []GExpr{ELit{pick(r, []string{",", " ", "", "a", ", ", ";,", "é"})}}}
 	case 0:
 		return ECall{"range", []GExpr{ELit{r.Intn(4)}, ELit{r.Intn(6)}}}
 	case 1:
